@@ -39,6 +39,30 @@ def crc_table(poly, bits):
     return tab
 
 
+def rice_escape_rules(F, ok, rep, P):
+    """a Rice parameter equal to the all-ones value is the escape code (RFC 9639 9.2.7.1/2): the encoder may only use
+    parameters strictly below it, also when it narrows 5-bit parameters to the 4-bit method"""
+    n = 0
+    for b in F.bodies:
+        if b.promoted is not None or b.kind != "Closure":
+            continue
+        if b.path.startswith("encode::write_residuals::Partition::<'r, RICE_MAX>::new::{closure") and b.locals[0]["ty"] == "bool":
+            f = ok.closure_bool_facts(b)
+            cmpf = [x for x in f if x[0] == "cmp"]
+            if not cmpf:
+                continue
+            n += 1
+            good = any(x[1] == "Lt" and "arg:" in str(x[2]) and "BitCount::new" in str(x[3]) for x in cmpf) or any(x[1] == "Gt" and "arg:" in str(x[3]) and "BitCount::new" in str(x[2]) for x in cmpf)
+            rep.check(P + ".resid", "Partition::new keeps a Rice parameter only if it is strictly below RICE_MAX (the escape code)", good, loc_of(b), str(cmpf),
+                      "a Rice parameter equal to the escape code can be emitted: the decoder reads the partition as escaped")
+        if b.path.startswith("encode::write_residuals::try_shrink_header::{closure"):
+            cm = [st_["rv"]["op"] for bl in b.blocks for st_ in bl["s"] if st_["rv"]["r"] == "bin" and st_["rv"]["op"] in ("Lt", "Le", "Gt", "Ge")]
+            n += 1
+            rep.check(P + ".resid", "try_shrink_header narrows a parameter to the 4-bit method only if it is strictly below the 4-bit escape code", cm == ["Lt"], loc_of(b), str(cm),
+                      "parameter 15 can be written with coding method 0, where 15 is the escape code")
+    rep.floor(P + ".resid", "Rice parameter range checks", n, 2)
+
+
 def run(ctx, rep):
     F = ctx.facts()
     cg = ctx.cg()
@@ -411,3 +435,4 @@ def run(ctx, rep):
         news = [t for _, t in b.calls() if re.search(r"BitCount::<MAX>::new$", callee_name(t))]
         esc = [t for t in news if t["f"]["args"][:2] == ["RICE_MAX", "RICE_MAX"]]
         rep.check("C02.resid", "escape / constant partitions are announced with the all-ones parameter RICE_MAX", len(esc) == 2, loc_of(b), "%d of %d BitCount::new calls" % (len(esc), len(news)))
+    rice_escape_rules(F, OkImplies(F, ctx.cg()), rep, "C02")
